@@ -63,8 +63,11 @@ type Conn struct {
 	msgReader      *msgReader
 
 	// Write state.
-	msgWriter      *msgWriter
-	writeFrameMu   *mu
+	msgWriter    *msgWriter
+	writeFrameMu *mu
+	// wroteClose is set once a close frame has been handed to writeFrame.
+	// Protected by writeFrameMu.
+	wroteClose     bool
 	writeBuf       []byte
 	writeHeaderBuf [8]byte
 	writeHeader    header
